@@ -254,3 +254,108 @@ func init() {
 			}})
 	}
 }
+
+// ---------------------------------------------------------------------------------------------
+// C05 after a Refresh that FAILED half-way: file creations fail (F <= 1, thorough 2) at any point of
+// Refresh, for every logger kind that touches files. Whatever Refresh managed to build or start,
+// the Destroy that follows returns (no blocked call, no panic), a second Refresh of the same
+// configuration is then possible, and what is logged through it is readable after its Destroy.
+// ---------------------------------------------------------------------------------------------
+
+type failedStartObs struct {
+	err1, err2 string
+	logged     bool
+	done       bool
+}
+
+func failedStartScenario(k kindCfg, b zzvrt.Bounds) *zzvrt.Scenario {
+	var o failedStartObs
+	return &zzvrt.Scenario{
+		Desc:   k.name,
+		Before: func() { resetAll(); o = failedStartObs{} },
+		Opts:   zzvrt.RunOpts{Bounds: b},
+		Body: func() {
+			x := zzvrt.Cur()
+			x.FS.FaultOps = map[string]bool{"open": true}
+			sink := &slowSink{}
+			zzvrt.Atomic(func() {
+				log.TimeNow = func(context.Context) time.Time { return fixedT }
+				log.Stdout = sink
+				x.FS.MkdirAll("/logs")
+			})
+			if err := log.Refresh(k.conf); err != nil {
+				o.err1 = err.Error()
+			}
+			log.Destroy()
+			if o.err1 != "" {
+				if err := log.Refresh(k.conf); err != nil {
+					o.err2 = err.Error()
+				} else {
+					kindEmit(kindEvents[1])
+					o.logged = true
+				}
+				log.Destroy()
+			}
+			o.done = true
+		},
+		Check: func(x *zzvrt.Exec) (string, []zzvrt.Violation) {
+			key := k.name
+			if x.Outcome != "" {
+				return x.Outcome, []zzvrt.Violation{{Clause: "no-" + strings.SplitN(x.Outcome, ":", 2)[0], Key: key,
+					Detail: fmt.Sprintf("first Refresh: %q; %s %s", trunc(o.err1, 120), x.Outcome, firstLines(x.Stack, 12))}}
+			}
+			var v []zzvrt.Violation
+			_, env := x.Used()
+			if o.err2 != "" && env[zzvrt.SeamFault] < 2 {
+				v = append(v, zzvrt.Violation{Clause: "no-recovery-after-failed-refresh", Key: key, Detail: fmt.Sprintf("after a failed Refresh (%s) and Destroy, the same configuration is rejected without any further fault: %s", trunc(o.err1, 120), trunc(o.err2, 200))})
+			}
+			if o.logged && k.target == "files" {
+				all := ""
+				for _, n := range x.FS.List("/logs") {
+					all += string(x.FS.Nodes["/logs/"+n].Data)
+				}
+				if !strings.Contains(all, kindEvents[1].payload) {
+					v = append(v, zzvrt.Violation{Clause: "not-flushed", Key: key, Detail: fmt.Sprintf("event logged after the second Refresh is not in the target after Destroy (target=%q)", all)})
+				}
+			}
+			return fmt.Sprintf("%v|%v|%v", o.err1 != "", o.err2 != "", o.logged), v
+		},
+	}
+}
+
+func trunc(s string, n int) string {
+	if len(s) > n {
+		return s[:n] + "..."
+	}
+	return s
+}
+
+func failedStartConfigs() []kindCfg {
+	var out []kindCfg
+	for _, k := range kindConfigs() {
+		if k.target == "files" {
+			out = append(out, k)
+		}
+	}
+	// an asynchronous logger next to a second logger and two file appenders
+	out = append(out, kindCfg{name: "AsyncLogger+Logger->File,Rolling", target: "files", conf: map[string]string{
+		"appender.f.type": "File", "appender.f.fileDir": "/logs", "appender.f.fileName": "app.log",
+		"appender.r.type": "RollingFile", "appender.r.fileDir": "/logs", "appender.r.fileName": "roll.log", "appender.r.rotation": "h", "appender.r.maxAge": "24",
+		"logger.root.type": "AsyncLogger", "logger.root.bufferSize": "100", "logger.root.appenderRef.ref": "f",
+		"logger.biz.type": "Logger", "logger.biz.tags": "_c03_b", "logger.biz.appenderRef.ref": "r"}})
+	return out
+}
+
+func init() {
+	registerFamily(Fam{Prop: "C05", Name: "c05/destroy-after-failed-refresh", Tiers: "qt",
+		Count: func(string) int { return len(failedStartConfigs()) },
+		Make: func(tier string, i int) *zzvrt.Scenario {
+			b := zzvrt.Bounds{Preempt: 1, Horizon: 20000}
+			b.Env[zzvrt.SeamFault] = 1
+			if tier == "thorough" {
+				b.Preempt = 2
+				b.Env[zzvrt.SeamFault] = 2
+			}
+			return failedStartScenario(failedStartConfigs()[i], b)
+		}})
+}
